@@ -163,7 +163,7 @@ def body (type code mid tkl : Nat) (rest : Bytes) : Option Msg :=
       if code = 0 then
         if tkl = 0 ∧ rest = [] then some ⟨type, 0, mid, [], [], []⟩ else none
       else
-        match opts code (r.length + 1) 0 (r.drop n) with
+        match opts code (rest.length + 1) 0 (r.drop n) with
         | none => none
         | some (os, rest') =>
           match finish rest' with
